@@ -24,6 +24,22 @@ def gen(ctx, k):
         sc.pop('weights', None)
         sc.pop('total', None)
         if len(sc['graph']['edges']) <= 22:
+            if len(out) % 4 == 1:
+                # an extension of the lexicon is installed but not selected: it hangs new synsets above and below the
+                # base's and adds hypernym links between base synsets through them — none of which compute() may see
+                import copy
+                g0 = sc['graph']
+                xg = copy.deepcopy(g0)
+                n0, m_ = g0['n'], ctx.rng.randint(1, 3)
+                xg['n'] = n0 + m_
+                xg['pos'] = list(g0['pos']) + [g0['pos'][0]] * m_
+                for j_ in range(n0, n0 + m_):
+                    for b_ in ctx.rng.sample(range(n0), min(n0, ctx.rng.randint(1, 2))):
+                        xg['edges'].append([b_, j_, 'hypernym'])
+                    for b_ in ctx.rng.sample(range(n0), min(n0, ctx.rng.randint(1, 2))):
+                        xg['edges'].append([j_, b_, 'hypernym'])
+                xg['split'] = n0
+                sc['xgraph'] = xg
             out.append(sc)
     return out
 
